@@ -129,15 +129,44 @@ func genChain(t *rapid.T, cfg protogen.GenConfig) *Case {
 }
 
 func genPair(t *rapid.T, cfg protogen.GenConfig) *Case {
+	// a quarter of the pairs start from a schema with unused imports, which the newer version drops from one
+	// file: a file that was only an import may vanish from the image
+	dropImports := rapid.IntRange(0, 3).Draw(t, "dropimports") == 0
+	cfg.UnusedImports = dropImports
 	ws := protogen.GenWorkspace(t, cfg)
 	ed := protogen.NewEditor(t)
 	c := &Case{Mode: "pair"}
 	c.Versions = append(c.Versions, Version{Mods: mods(ws), Files: ws.Render().ByModule, How: "generated"})
 	next := ws.Clone()
 	var how []string
+	if dropImports {
+		var cands []*protogen.File
+		for _, f := range next.AllFiles() {
+			for _, i := range f.Imports {
+				if i.Unused {
+					cands = append(cands, f)
+					break
+				}
+			}
+		}
+		if len(cands) > 0 {
+			f := cands[rapid.IntRange(0, len(cands)-1).Draw(t, "dropfile")]
+			var kept []protogen.Import
+			for _, i := range f.Imports {
+				if !i.Unused {
+					kept = append(kept, i)
+				}
+			}
+			f.Imports = kept
+			how = append(how, "drop-unused-imports")
+		}
+	}
 	n := rapid.IntRange(1, 4).Draw(t, "edits")
 	if rapid.Bool().Draw(t, "single") {
 		n = 1 // a single edit: its own category profile is not masked by other edits
+	}
+	if len(how) > 0 && rapid.Bool().Draw(t, "onlydrop") {
+		n = 0 // nothing but the dropped imports
 	}
 	for i := 0; i < n; i++ {
 		var e *protogen.Edit
